@@ -283,14 +283,14 @@ bool Session::process(const f8String& from)
 
 	try
 	{
-		const f8String::size_type fpos(from.find("34="));
+		const f8String::size_type fpos(from.find("\00134="));	// the MsgSeqNum tag, not '34=' inside another tag or value
 		if (fpos == f8String::npos)
 		{
 			slout_debug << "Session::process throwing for " << from;
 			throw InvalidMessage(from, FILE_LINE);
 		}
 
-		seqnum = fast_atoi<unsigned>(from.data() + fpos + 3, default_field_separator);
+		seqnum = fast_atoi<unsigned>(from.data() + fpos + 4, default_field_separator);
 
 		bool retry_plog(false);
 		if (_plogger && _plogger->has_flag(Logger::inbound))
